@@ -16,7 +16,7 @@ import (
 func init() {
 	register(&propDef{
 		ID:          "C05",
-		Explanation: "Decides, for package safehtml and the routing into it — not a CSS tokenisation of outputs: R1 every path on which a value sanitiser (each function stored in the per-property table, and the default) returns its input unchanged is dominated, for every piece the function splits the input into, by a whole-piece validator in rejecting position: an anchored-regex MatchString, or a ContainsAny rejection whose set contains at least the string/token terminators \" \\ and newline (prefix/suffix tests and url.Parse are not validators: they constrain the ends or the URL grammar, not the alphabet); R2 every validating pattern is anchored at both ends and its alphabet (over-approximated from the regexp syntax tree) excludes ; : { } ( ) \" ' \\ < > @ and line breaks; (thorough) no string accepted by the regular-value pattern contains /*, */ or // (product of the compiled program with a substring automaton); R3 css-component expressions are emitted as templ.SanitizeCSS(<constant name>, <expr>) and constant properties as Go string literals (GEM); every write of the style-attribute builder is HTML-escaped and its content comes from safehtml.SanitizeCSS / SanitizeCSSProperty / SanitizeStyleValue or is typed SafeCSS / SafeCSSProperty (SSA); the bypass in templ.SanitizeCSS is guarded by the reflect type test; R4 the property-name sanitiser returns a non-constant only after the identifier pattern matched, and an innocuous name forces the innocuous value; R5 the schemes compared in the url() check are within {http, https, mailto} and absolute URLs with other schemes are rejected; R6 the string-token escaper's arms cover NUL, <, \", \\, C0, DEL, C1, U+2028, U+2029. NOT decided: CSS tokenisation of the emitted text by a browser.",
+		Explanation: "Decides, for package safehtml and the routing into it — not a CSS tokenisation of outputs: R1 every path on which a value sanitiser (each function stored in the per-property table, and the default) returns its input unchanged is dominated, for every piece the function splits the input into, by a whole-piece validator in rejecting position: an anchored-regex MatchString, or a ContainsAny rejection whose set contains at least the string/token terminators \" \\ and newline (prefix/suffix tests and url.Parse are not validators: they constrain the ends or the URL grammar, not the alphabet); R2 every validating pattern is anchored at both ends and its alphabet (over-approximated from the regexp syntax tree) excludes ; : { } ( ) \" ' \\ < > @ and line breaks; (thorough) no string accepted by the regular-value pattern contains /*, */ or // (product of the compiled program with a substring automaton); R3 css-component expressions are emitted as templ.SanitizeCSS(<constant name>, <expr>) and constant properties as Go string literals (GEM); every write of the style-attribute builder is HTML-escaped and its content comes from safehtml.SanitizeCSS / SanitizeCSSProperty / SanitizeStyleValue or is typed SafeCSS / SafeCSSProperty (SSA); the bypass in templ.SanitizeCSS is guarded by the reflect type test; R4 the property-name sanitiser returns a non-constant only after the identifier pattern matched, and an innocuous name forces the innocuous value; R5 the schemes compared in the url() check are within {http, https, mailto} and absolute URLs with other schemes are rejected; R6 the string-token escaper's arms cover NUL, <, \", \\, C0, DEL, C1, U+2028, U+2029. R7 a style attribute value passes exactly one HTML-escaping layer between the CSS sanitiser and the attribute (runtime writes and the generated sink are counted). NOT decided: CSS tokenisation of the emitted text by a browser.",
 		Assumptions: []string{"regexp/syntax parses what regexp compiles", "a CSS string token ends only at its quote, at a newline, or through a backslash escape"},
 		Trusted:     []string{"go/types", "go/parser", "regexp/syntax", "x/tools go/packages, go/cfg, go/ssa"},
 		Run:         runC05,
@@ -219,6 +219,84 @@ func runC05(c *Ctx) {
 	}
 	if nw < 8 {
 		c.viol("C05.R3", "anchor-lost:style-attribute-writes", "", fmt.Sprintf("only %d builder writes found in the style attribute code", nw))
+	}
+	// R7: between the CSS sanitiser and the style attribute there is exactly ONE HTML-escaping layer. The browser
+	// undoes one layer before the CSS parser runs; a second layer leaves character references in the CSS text, and the
+	// ';' that ends every reference ends the declaration (a quoted font name `"a;color:red;b"`, valid as a CSS string,
+	// turns into `&#34;a;color:red;b&#34;` — a second declaration).
+	runtimeEscapes := 0
+	for _, fn := range ssaFuncs(c.prog, rsp) {
+		if !strings.Contains(strings.ToLower(fn.Name()), "style") && !strings.HasPrefix(fn.Name(), "process") && !strings.HasPrefix(fn.Name(), "handle") {
+			continue
+		}
+		for _, sk := range findSinks(fn) {
+			if sk.Kind != "Builder.WriteString" {
+				continue
+			}
+			for _, l := range flatten(f.classify(sk.Operands[0])) {
+				if l.Kind == "ESCAPED" {
+					runtimeEscapes++
+				}
+			}
+		}
+	}
+	en := g.names()
+	nstyle := 0
+	for _, gf := range g.order {
+		if !gf.Emits {
+			continue
+		}
+		for _, sk := range g.Skeletons(gf) {
+			if sk.File == nil || !strings.Contains(sk.Src, "SanitizeStyleAttributeValues") {
+				continue
+			}
+			direct := false
+			for _, nd := range gf.Tree {
+				if e, ok := nd.(Emit); ok {
+					for _, pp := range e.Parts {
+						if pp.Kind == PConst && strings.Contains(pp.Const, "SanitizeStyleAttributeValues") {
+							direct = true
+						}
+					}
+				}
+			}
+			if !direct {
+				continue
+			}
+			// the variable assigned from the sanitiser, and how it is written
+			gv := ""
+			ast.Inspect(sk.File, func(x ast.Node) bool {
+				if as, ok := x.(*ast.AssignStmt); ok && len(as.Rhs) == 1 {
+					if call, ok := as.Rhs[0].(*ast.CallExpr); ok && strings.HasSuffix(types.ExprString(call.Fun), "SanitizeStyleAttributeValues") {
+						gv = types.ExprString(as.Lhs[0])
+					}
+				}
+				return true
+			})
+			generatorEscapes := false
+			ast.Inspect(sk.File, func(x ast.Node) bool {
+				if call, ok := x.(*ast.CallExpr); ok && en.ok && callName(call) == en.Buf+".WriteString" && len(call.Args) == 1 {
+					if types.ExprString(call.Args[0]) == "templ.EscapeString("+gv+")" && gv != "" {
+						generatorEscapes = true
+					}
+				}
+				return true
+			})
+			nstyle++
+			layers := 0
+			if generatorEscapes {
+				layers++
+			}
+			if runtimeEscapes > 0 {
+				layers++
+			}
+			c.check(layers == 1, "C05.R7", fmt.Sprintf("%s|style-value-html-escaped-once|layers=%d", gf.Key, layers), c.pos(gf.Decl.Pos()), "one HTML-escaping layer between the CSS sanitiser and the style attribute",
+				fmt.Sprintf("%s: a style attribute value passes through %d HTML-escaping layers (the runtime's SanitizeStyleAttributeValues escapes %d of its writes, and the generated code %s templ.EscapeString to the result). The browser undoes one; with two, the CSS parser sees character references such as &#34; whose ';' ends the declaration, so a value that is valid as one declaration (a quoted font name containing ';') becomes several; with none, the value can end the attribute", gf.Name, layers, runtimeEscapes, map[bool]string{true: "applies", false: "does not apply"}[generatorEscapes]))
+			break
+		}
+	}
+	if nstyle == 0 {
+		c.viol("C05.R7", "anchor-lost:style-attribute-emission", "", "no generator function emits a call of SanitizeStyleAttributeValues")
 	}
 	// templ.SanitizeCSS bypass
 	tp := c.pkg(".")
